@@ -110,12 +110,14 @@ class Variant:
             raise HarnessError("unknown variant base " + b)
         if opt: o = [opt]
         self.opt = o
+        # valgrind 3.19 cannot read clang 14's default DWARF 5
+        self.dbg = ["-g", "-gdwarf-4"] if self.cc == "clang" else ["-g"]
         self.common = common
         self.defs = ["-D" + GUARD] + ["-DSKINNY_VERIF_%s=%d" % (k, v) for k, v in sorted(self.cfg.items())]
 
     def lib_flags(self, src):
         mak = options_mak()
-        fl = list(self.opt) + ["-g"] + self.common + mak["STDC"] + self.san + self.defs
+        fl = list(self.opt) + self.dbg + self.common + mak["STDC"] + self.san + self.defs
         if "vec256" in src:
             fl = mak["V256"] + fl
         elif "vec128" in src:
@@ -126,7 +128,7 @@ class Variant:
 
     def harness_flags(self):
         o = ["-O1"] if self.san else ["-O2"]
-        return o + ["-g", "-std=gnu11", "-Wall", "-Wno-unused-parameter"] + self.san + ["-D" + GUARD]
+        return o + self.dbg + ["-std=gnu11", "-Wall", "-Wno-unused-parameter"] + self.san + ["-D" + GUARD]
 
 
 _pool = None
